@@ -358,11 +358,11 @@ class SpecEval(object):
         # phrase array facts over absolute indices: if the body reads A[k + rest], re-index by j = k + rest
         cnt = {}
         for x in subterms(body):
-            if x.op == 'select' and x.args[0].sort in (ARR_II, ARR_IB):
+            if (x.op == 'select' and x.args[0].sort in (ARR_II, ARR_IB)) or (x.op == 'app' and x.val == 'elem'):
                 for cf in (1, -1):
                     r = lin_split(x.args[1], k, cf)
                     if r is not None:
-                        cnt[(cf, r)] = cnt.get((cf, r), 0) + 1
+                        cnt[(cf, r)] = cnt.get((cf, r), 0) + (3 if x.op == 'app' else 1)
         pats = []
         if cnt:
             cf, rest = max(cnt, key=lambda cr: (cnt[cr], cr[0], -len(smt(cr[1]))))
@@ -380,6 +380,10 @@ class SpecEval(object):
                 lo, hi = add(sub(rest, hi), ONE), add(sub(rest, lo), ONE)
                 k = j
             seen = set()
+            for x in subterms(body):
+                if x.op == 'app' and x.val == 'elem' and x.args[1] == k and x not in seen:
+                    seen.add(x)
+                    pats.insert(0, x)
             for x in subterms(body):
                 if x.op == 'select' and x.args[1] == k and x not in seen and not any(y.op in ('forall', 'exists') for y in subterms(x.args[0])):
                     seen.add(x)
